@@ -1789,7 +1789,9 @@ class SQLObject(with_metaclass(declarative.DeclarativeMeta, object)):
                        for name, value in self._reprItems()]))
 
     def __sqlrepr__(self, db):
-        return str(self.id)
+        # a string id (sqlmeta.idType = str) must be quoted like any
+        # other string literal
+        return sqlbuilder.sqlrepr(self.id, db)
 
     @classmethod
     def sqlrepr(cls, value, connection=None):
